@@ -511,6 +511,32 @@ def run(tier):
             found = True
         if nested_equal_part(rep, cfg, tier, modes=("o2",)):
             found = True
+    # ---- lookups in a tag registry after any history of register / re-register / unregister calls return (a reader given that registry would hang
+    #      otherwise): groups of 2..4 tags sharing one of the 16 buckets, every order of (re-)registration incl. re-registering a tag that is not the
+    #      head of its chain, then queries of present and ABSENT tags of the same bucket, under the harness's CPU alarm
+    from . import c14 as _c14
+    import itertools as _it
+    byb = {}
+    for a1 in "abcdefghijklmnop":
+        for b1 in "abcdefgh":
+            byb.setdefault(_c14.fnv((a1 + b1).encode()) % 16, []).append(a1 + b1)
+    glines = []
+    for bk in sorted(byb)[:6]:
+        tags = byb[bk][:5]
+        if len(tags) < 4:
+            continue
+        absent = tags[4] if len(tags) > 4 else "zz/absent"
+        for n in (2, 3, 4):
+            for order in _it.permutations(tags[:n]):
+                for redo in order:
+                    for un in (None, order[0], order[-1]):
+                        ops = ["+%s=1" % t for t in order] + ["+%s=2" % redo] + (["-%s" % un] if un else []) + ["?%s" % absent] + ["?%s" % t for t in tags[:n]]
+                        glines.append("G " + " ".join(ops))
+    gi, gcr = K.run_impl("core", glines, mode="o2", nchunks=8, cpu_s=60)
+    rep.count("registry-histories-then-lookups", len(glines))
+    for idx, rc, err in gcr[:3]:
+        found = True
+        rep.finding("hang/registry-lookup", "a lookup after this history of registry calls did not return (exit %s)" % rc, {"kind": "line", "config": "core", "mode": "o2", "line": glines[idx], "stderr": (err or "")[-1500:]})
     U.finish_proof(rep, lean, found)
 
 
